@@ -198,7 +198,7 @@ fn directed(ctx: &Ctx, rep: &mut Report) {
 
 pub fn check(ctx: &Ctx, rep: &mut Report) {
     directed(ctx, rep);
-    let total = ctx.size(40_000, 2_400_000) / ctx.nshards;
+    let total = ctx.size(40_000, 6_000_000) / ctx.nshards;
     for k in 0..total {
         if !ctx.wants(k) {
             continue;
